@@ -66,6 +66,7 @@ class RefPeer:
             'narrow': k.get('narrow', r.choice(['first', 'last', 'last'])),
             'extras': k.get('extras', r.random() < 0.5),
             'pad_extra': k.get('pad_extra', r.choice([0, 0, 1, 3])),
+            'pad_fill': k.get('pad_fill', r.choice(['zero', 'random', 'padlen'])),
             'prefer': k.get('prefer', r.choice(['mine', 'mine', 'reversed'])),       # preference order among the common transforms
             'latency': k.get('latency', r.choice([0.005, 0.02, 0.1])),
         }
@@ -244,7 +245,8 @@ class RefPeer:
         if out is None:
             return
         resp = R.sk_seal({'spi_i': s.spi_i, 'spi_r': s.spi_r, 'exch': h['exch'], 'I': False, 'R': True, 'id': h['id']}, out, s.suite,
-                         s.keys['ar'], s.keys['er'], self._rb(16), pad_extra=self.k['pad_extra'] if self.r.random() < 0.5 else 0)
+                         s.keys['ar'], s.keys['er'], self._rb(16), pad_extra=self.k['pad_extra'] if self.r.random() < 0.5 else 0,
+                         pad_fill=(lambda n: self._rb(n)) if self.k['pad_fill'] == 'random' else ((lambda n: bytes([n] * n)) if self.k['pad_fill'] == 'padlen' else None))
         s.last[h['id']] = (data, resp)
         s.expect = h['id'] + 1
         self._send(resp, src)
